@@ -168,4 +168,7 @@ condition on a DateTime, so `dec_enc_variant` covers them). -/
 theorem datetime_encode_total (t : Int) : encDateTime t = le64 (ofS64 (dtChecked (ticksSat t))) := by
   rw [dtChecked_ticksSat]; rfl
 
+/-- regenerated: every scalar field of every generated structure is one of the 22 built-in scalar kinds -/
+theorem schemas_scalar_ids : (Gen.schemas.all fun p => p.2.scOk) = true := by decide +kernel
+
 end OpcuaVerif.C01
